@@ -197,7 +197,7 @@ pub fn run(ctx: &Ctx) -> Result<(), String> {
     // part 1b: bursts that exceed what one event-loop call handles, spread over W workers, all queued
     // before the first step (a worker descheduled under a burst), mixed protocols
     {
-        let plans: Vec<(usize, u8, usize)> = ctx.tier.pick(vec![(2, 1, 40), (2, 2, 70), (3, 1, 60)], vec![(2, 1, 40), (2, 2, 70), (3, 1, 60), (2, 3, 120), (4, 1, 90), (2, 64, 300)]); // (W, batch_size, K)
+        let plans: Vec<(usize, u8, usize)> = ctx.tier.pick(vec![(2, 1, 40), (2, 2, 70), (3, 1, 60), (1, 64, 64), (2, 64, 150)], vec![(2, 1, 40), (2, 2, 70), (3, 1, 60), (2, 3, 120), (4, 1, 90), (1, 64, 64), (2, 64, 150), (2, 64, 300), (3, 33, 200)]); // (W, batch_size, K)
         par_for(plans.len(), 1, |j, _| {
             let (w, bs, k) = plans[j];
             let reqs: Vec<Version> = (0..k).map(|i| if i % 3 == 0 { Version::Ietf13 } else { Version::Classic }).collect();
